@@ -112,7 +112,7 @@ Proof.
   - unfold subscribe. destruct (session_of st c) as [[k s]|]; [|exact W].
     destruct (negb _); [exact W|]. cbn [snd]. apply wf_put; exact W.
   - unfold unsubscribe. destruct (session_of st c) as [[k s]|]; [|exact W]. cbn [snd]. apply wf_put; exact W.
-  - rewrite publish_unfold. destruct (negb _ && _); [exact W|]. cbn [snd].
+  - rewrite publish_unfold. destruct (pub_stuck _ _ _); [exact W|]. cbn [snd].
     destruct W as (Wt & Ws & Wr). unfold wf; cbn [st_temps st_stored st_retained]; repeat split.
     + rewrite map_map; cbn [fst]. exact Wt.
     + rewrite map_map; cbn [fst]. exact Ws.
@@ -285,21 +285,22 @@ Proof.
 Qed.
 
 Theorem step_retained_ok st o :
+  wf st -> OwnOk st ->
   let (r, st') := step st o in retained_ok st o r st' = true.
 Proof.
-  destruct (step st o) as [r st'] eqn:E. unfold retained_ok.
+  intros W O. destruct (step st o) as [r st'] eqn:E. unfold retained_ok.
   assert (Est : st' = snd (step st o)) by (rewrite E; reflexivity).
   destruct o as [c id clean|t|c|c subs b|c fs|c m got|c t|c|];
     try (rewrite Est, retained_step_other by exact I;
          apply andb_true_iff; split; [apply nodup_imp; auto|]; destruct r; apply retained_unchanged_ok).
   cbn [step] in E. rewrite publish_unfold in E.
-  destruct (negb (pub_err st c m) && pub_blk st c m).
-  - injection E as <- <-. apply andb_true_iff; split; [apply nodup_imp; auto|]. apply retained_unchanged_ok.
-  - injection E as <- <-. cbn [st_retained]. apply andb_true_iff; split; [apply nodup_imp, wf_retain_update|].
-    assert (X : forall l, forallb (fun t => option_eqb message_eqb (alookup bytes_eqb t (retain_update m (st_retained st)))
-                                     (ret_spec m (st_retained st) t)) l = true).
-    { intros l. apply forallb_forall. intros t _. rewrite alookup_retain_update. apply msg_opt_eqb_refl. }
-    destruct (pub_err st c m); apply X.
+  destruct (pub_stuck st c m) eqn:Hnb.
+  - injection E as <- <-. apply andb_true_iff; split; [apply nodup_imp; auto|].
+    destruct (own_refused st c m); apply retained_unchanged_ok.
+  - unfold pub_stuck in Hnb. apply orb_false_iff in Hnb as [R _].
+    rewrite (no_midway st c m W O R) in E.
+    injection E as <- <-. cbn [st_retained]. apply andb_true_iff; split; [apply nodup_imp, wf_retain_update|].
+    apply forallb_forall. intros t _. rewrite alookup_retain_update. apply msg_opt_eqb_refl.
 Qed.
 
 (* every stored retained message keeps its topic, the flag and a payload *)
@@ -325,7 +326,7 @@ Theorem step_retained_wf st o : retained_wf st = true -> retained_wf (snd (step 
 Proof.
   unfold retained_wf. intros H.
   destruct o as [c id clean|t|c|c subs b|c fs|c m got|c t|c|]; try (rewrite retained_step_other by exact I; exact H).
-  cbn [step]. rewrite publish_unfold. destruct (negb _ && _); [exact H|]. cbn [snd st_retained].
+  cbn [step]. rewrite publish_unfold. destruct (pub_stuck _ _ _); [exact H|]. cbn [snd st_retained].
   apply retained_wf_update; exact H.
 Qed.
 
@@ -340,7 +341,7 @@ Proof.
   intros W. destruct (publish st c m got) as [r st'] eqn:E. unfold live_copy_ok.
   assert (Est : st' = snd (publish st c m got)) by (rewrite E; reflexivity).
   apply forallb_forall. intros [k s] Hin. cbn [fst snd].
-  destruct (negb (pub_err st c m) && pub_blk st c m) eqn:Hnb.
+  destruct (pub_stuck st c m) eqn:Hnb.
   - rewrite publish_unfold, Hnb in E. injection E as _ <-. rewrite (sessions_get st k s W Hin).
     rewrite nat_ltb_irrefl. reflexivity.
   - rewrite Est, (get_session_published st c m got k Hnb), (sessions_get st k s W Hin). cbn [option_map].
@@ -352,4 +353,15 @@ Proof.
     { unfold enqueue, queue_of. destruct (use_temp m) eqn:U; cbn [s_tq s_sq]; rewrite ?U; reflexivity. }
     rewrite Q, app_length, rev_app_distr. cbn [length rev app live_copy m_retain m_topic m_payload].
     rewrite !bytes_eqb_refl. destruct (Nat.ltb _ _); reflexivity.
+Qed.
+
+(* ------------------------------------------------------------------ a refused Publish changes nothing *)
+Theorem publish_refused_ok st c m got :
+  wf st -> OwnOk st ->
+  let (r, st') := publish st c m got in refused_ok st (OPublish c m got) r st' = true.
+Proof.
+  intros W O. destruct (publish st c m got) as [r st'] eqn:E. unfold refused_ok.
+  destruct r; try reflexivity.
+  destruct (publish_refused st c m got W O) as [_ H]; [rewrite E; reflexivity|].
+  rewrite E in H. cbn [snd] in H. subst st'. apply others_unchanged_refl; exact W.
 Qed.
